@@ -141,6 +141,7 @@ def _scan_heap(ctx: Ctx, f, path: Path, dirty: Dict[str, Any], out: List[Dict[st
     def _pqk(t: Term) -> str:
         return alias.get(t) or key(strip_ver(t))
 
+    holes: Dict[str, Any] = alias.setdefault("__holes__", {})  # type: ignore[arg-type]  # queue -> [index overwritten on a clean heap, sifts done at it]
     for e in path.events:
         if e.kind == "call":
             fn = e.fname
@@ -151,9 +152,25 @@ def _scan_heap(ctx: Ctx, f, path: Path, dirty: Dict[str, Any], out: List[Dict[st
                 elif e.name in ("heappush", "heappop"):
                     if q in dirty:
                         out.append({"what": f"heapq.{e.name} on {q} while it may not be a heap", "node": e.node, "since": dirty[q]})
+                elif e.name in ("_siftup", "_siftdown") and str(dirty.get(q, "")).startswith("element store") and q in holes:
+                    # the textbook repair after overwriting one position i of a heap: sift the new entry towards the leaves
+                    # (_siftup(h, i)) AND towards the root (_siftdown(h, 0, i)); one direction alone is not enough in general
+                    # (seeds C02t, C03t do one, their corrected versions both)
+                    at = strip_ver(e.args[1]) if e.name == "_siftup" and len(e.args) == 2 else (strip_ver(e.args[2]) if e.name == "_siftdown" and len(e.args) == 3 and strip_ver(e.args[1]) == ("const", 0) else None)
+                    if at is not None and at == holes[q][0]:
+                        holes[q][1].add(e.name)
+                        if holes[q][1] == {"_siftup", "_siftdown"}:
+                            dirty.pop(q, None)
+                            holes.pop(q, None)
+                        else:
+                            dirty[q] = f"element store repaired in one direction only (heapq.{e.name})"
+                    else:
+                        dirty[q] = f"heapq.{e.name}"
                 else:
                     dirty[q] = f"heapq.{e.name}"
             elif e.data.get("mutates") is not None and _is_pq(e.data["mutates"]):
+                if e.name == "pop" and not e.args and not e.kwargs:
+                    continue  # taking the last leaf off a heap leaves a heap
                 dirty[_pqk(e.data["mutates"])] = f".{e.name}()"
         elif e.kind == "store":
             if e.attr == "priority_queue":
@@ -166,7 +183,12 @@ def _scan_heap(ctx: Ctx, f, path: Path, dirty: Dict[str, Any], out: List[Dict[st
                 else:
                     dirty[qk] = "rebinding"
             elif e.attr is None and _is_pq(e.base):
+                was_clean = _pqk(e.base) not in dirty
                 dirty[_pqk(e.base)] = "element store"
+                if was_clean and e.index is not None:
+                    holes[_pqk(e.base)] = [strip_ver(e.index), set()]
+                else:
+                    holes.pop(_pqk(e.base), None)
         elif e.kind == "del" and e.attr is None and _is_pq(e.base):
             dirty[_pqk(e.base)] = "element delete"
         elif e.kind == "loop":
